@@ -73,7 +73,7 @@ def run(ctx):
         m = cone.margin(cone.symmetrize(v, d), d)
         return c.require(m > 0 or d.N == 0, key, "%s not strictly inside the cone after a contained failure (margin %.3g)" % (name, m))
 
-    def classify(c, solver, site, tag, pr, sol, exc, opts, nlpr=None, entry=None):
+    def classify(c, solver, site, tag, pr, sol, exc, opts, nlpr=None, entry=None, start="none"):
         """outcome classifier; returns outcome label"""
         key = "%s:%s" % (solver, site)
         early = tag in ("startup", 0)
@@ -89,6 +89,17 @@ def run(ctx):
                    (site, tag, type(exc).__name__, exc))
             return "escaped"
         st = sol.get("status")
+        # "during start-up and the first iteration it raises the documented ValueError about rank": required for every
+        # start-up call, for iteration 0 of coneqp and cpl/cp, and for iteration 0 of conelp when both start points
+        # were supplied (no start-up factorisation took place: it is the first time the KKT system is used).  conelp
+        # returns 'unknown' for an iteration-0 failure that follows a successful start-up factorisation; the code
+        # documents that distinction, so both outcomes are accepted there.
+        must_raise = tag == "startup" or (tag == 0 and (solver != "conelp" or start == "both"))
+        if early:
+            ctx.count("early-failure.%s" % ("must-raise" if must_raise else "either"))
+        c.require(not must_raise, key + ":no-rank-ValueError-for-failure-in-startup-or-first-iteration",
+                  "failure injected at %s call (tag %s, start points %s) did not raise the documented rank ValueError; "
+                  "status %r returned" % (site, tag, start, st))
         if nlpr is None:
             qp = pr.P is not None
             d = pr.dims
@@ -191,7 +202,7 @@ def run(ctx):
             sol, _, exc = sr.call_entry(solver, pr, args, kktsolver=inj, ps=ps, ds=ds, options=opts)
             tag = (base.tags_f if site == "factor" else base.tags_s)[idx]
             ctx.count("inject.%s.%s" % (solver, site))
-            out = classify(c, solver, site + ("+persistent" if pers else ""), tag, pr, sol, exc, opts)
+            out = classify(c, solver, site + ("+persistent" if pers else ""), tag, pr, sol, exc, opts, start=start)
             c.require(inj.fired, "%s:%s:fault-not-reached" % (solver, site), "injection index %d never reached (fault-free trace had it)" % idx)
             ctx.count("tagclass.%s" % ("startup" if tag == "startup" else "iter0" if tag == 0 else "later"))
         c.cls(solver, start, nm, d.shape_class(), "F%d" % min(F, 12))
